@@ -99,6 +99,25 @@ PROPS["C10"] = {
     "level_note": "Trusted: Lean kernel, harness. Panics inside encoding/json itself are outside the model (none observed).",
     "technique": "Lean 4 proof (totality + invariant over all frame sequences) + exhaustive differential correspondence",
 }
+PROPS["C19"] = {
+    "lean": ["SioVerif.Props.C19"],
+    "components": ["timed:TestQueues"],
+    "facts": ["chanPollQueueReady", "chanPacketQueueReady"],
+    "rule": "forced schedules on the real pollQueue and packetQueue inside a synctest bubble: goroutines parked at the yield points (before get, between get and "
+            "the select, before the final get, between append and signal) are released one atomic step at a time by a random walk (1..2 consumers, any number of "
+            "producers, bursts of 1..2 packets, poll timeouts at virtual +45 s), quiescence observed with synctest.Wait; the label sequence actually taken is "
+            "replayed on the Lean transition system. Non-trivial = a producer step falls between a consumer's get and its wait; distinct by label sequence.",
+    "trusted_base": EXT + ["go1.26.8 testing/synctest: virtual time and durable-blocking detection are faithful to the real runtime",
+                           "the atomic steps of the model are the code's critical sections and channel operations (yield points sit exactly between them)"],
+    "assumptions": ["Go select chooses arbitrarily among ready cases; a non-blocking send on a buffered channel leaves a token"],
+    "level_text": "Lean 4 theorems over a transition system of the two hand-over queues, for every number of consumers and producers and every interleaving of the "
+                  "atomic steps: with the channel capacities found in the source, no reachable state has packets queued, a consumer waiting and nothing that will "
+                  "wake it (inductive invariant), a non-timeout step is always enabled towards the hand-over, and a poll's answer always takes everything queued. "
+                  "The real queues are driven through forced schedules at the named yield points and their observable behaviour is compared with the model's.",
+    "level_note": "Trusted: Lean kernel, translator (channel capacities), synctest. That the real goroutines only interleave at the modelled steps is validated by "
+                  "forced schedules, not proved.",
+    "technique": "Lean 4 proof (inductive invariant over all interleavings) + forced-schedule correspondence under synctest",
+}
 
 NOT_APPLICABLE = [
 ]
